@@ -107,6 +107,7 @@ def orient_case(draw):
     for s in shells:
         if s["l"] >= 3:
             s["exps"] = [min(5.0, max(0.2, e)) for e in s["exps"]]
+            s["coeffs"], _rep = gen.repair_cancellation(s["l"], s["exps"], s["coeffs"])  # clamped exponents may coincide
     from vf.props import c04
     f = max(s["l"] for s in shells) >= 3
     shells = draw(c04.same_contraction(shells, 0.2 if f else 0.1, 5.0 if f else 10.0))
